@@ -154,4 +154,7 @@ def register(w):
     bounded("jax2onnx.converter.ir_postprocess:postprocess_ir_model", "post_processing_only_forgets_dims_and_leaves_inputs_and_outputs_untouched", "C08_postprocess_family",
             "110 models: one chain + one Loop body, declared dims from {int, named symbol, unknown}^rank for ranks 0..3, with and without promotion to double",
             "ir_postprocess works on heterogeneous dim lists (int | SymbolicDim | None | str) and on nested graph attributes; not within the VC generator's subset")
+    bounded("jax2onnx.plugins.jax.numpy.arange:ArangePlugin", "different_data_dependent_extents_do_not_share_one_dimension_name", "D38",
+            "one program: two outputs jnp.arange(T*T) and jnp.arange(T*S), run with T=3, S=1",
+            "the naming of data-dependent output dimensions is not under contract")
     return api
